@@ -259,6 +259,25 @@ CHECKS = {
         "covered by C14/C15, and interactive assembly, disasm ranges, symbols, -address/-set_pc are not modelled here.",
    technique="TLA+ model of naken_util memory commands; TLC-enumerated sessions replayed into the real naken_util; "
              "TLC trace acceptor over the printed dumps"),
+ "C20": dict(
+   category="model_checking",
+   text="Link.tla gives the reference semantics (the functions reachable from the program's references through call "
+        "relocations, each placed once behind the program at its symbol's address with its own bytes, every call word "
+        "patched to the callee's address, nothing else placed, an undefined name an error). MCLink runs the two passes of "
+        "naken_asm as a state machine - token-level discovery into the needed-symbol list, AsmContext::link iterating it "
+        "while link_function_mips scans and extends it, pass 2 placing and patching - and TLC checks Sound and ErrorIff "
+        "on every scenario of the universe (functions f, g, h with up to 1 (thorough 2) calls to any of them or to an "
+        "undefined name, three file arrangements, programs of up to 2 references: 57,036 / 1,967,448 scenarios). GenLink "
+        "prints the scenarios; for a sample the check writes real ELF32 REL objects and ar archives (nv/elfobj.py), runs "
+        "the real naken_asm -l -type hex on program + files for mips, mips32, pic32, ps2_ee in 8 variants (extra "
+        "sections, static calls via section symbol + addend, big-endian objects, a non-object file, unaligned program "
+        "end, a function named like a mnemonic, a jal without relocation), and TraceLink (TLC) decodes the hex file, reads "
+        "the symbol table and evaluates PlacedRight, PlacedOnce, OnlyNeeded, OnlyNeededSymbols, ErrorExpected.",
+   design_ref="DESIGN.md 4 C20",
+   note="Duplicate definitions of one name across files and program labels that shadow imported names are not "
+        "generated; objects are well formed (malformed import files are not covered).",
+   technique="TLA+ reference semantics of linking plus a two-pass machine of the implementation, model-checked with TLC; "
+             "TLC-enumerated scenarios turned into real ELF32/ar files and run through the real naken_asm; TLC trace acceptor"),
 }
 
 NOT_YET = "machinery for this property is not built yet in this revision (planned in DESIGN.md section 8)"
